@@ -502,9 +502,12 @@ def _dict_method(I, o, name):
     def update(I, a, k):
         if a:
             src = I.force(a[0])
-            if not isinstance(src, dict):
-                raise OutsideSubset("dict.update with non-dict")
-            o.update(src)
+            if isinstance(src, dict):
+                o.update(src)
+            else:
+                for kv in ops.iterate(I, src, None):
+                    kk, vv = ops.iterate(I, kv, None)
+                    o[ops.dict_key(I, kk, None)] = vv
         o.update(k)
 
     def pop(I, a, k):
@@ -889,7 +892,21 @@ class NamedTupleClass:
         self.name, self.fields = name, fields
 
 
+def x_commonprefix(I, args, kwargs):
+    """os.path.commonprefix (assumed stdlib contract): the longest common *character* prefix of the given strings (two strings modelled)"""
+    items = ops.iterate(I, args[0], None)
+    if len(items) != 2:
+        raise OutsideSubset("commonprefix of other than two strings")
+    a, b = mk_str(I.force(items[0])), mk_str(I.force(items[1]))
+    r = I.fresh("commonprefix", "str")
+    n = z3.Length(r.t)
+    I.ctx.assume(z3.And(z3.PrefixOf(r.t, a), z3.PrefixOf(r.t, b),
+                        z3.Or(n == z3.Length(a), n == z3.Length(b), z3.SubString(a, n, 1) != z3.SubString(b, n, 1))))
+    return r
+
+
 EXTERNALS = {
+    "os.path.commonprefix": x_commonprefix,
     "collections.namedtuple": x_namedtuple,
     "functools.partial": x_partial,
     "collections.defaultdict": x_defaultdict,
